@@ -145,7 +145,7 @@ def fsOp (fs : Fs) (ws : List String) : Option (Fs × String) :=
       let p ← fromHex p; if !okStr p then none
       pure (fs, toHex (getAbsolutePath p))
   | ["fsrmdir", p, r] => do
-      let p ← fromHex p; let r ← parseBool r; if !(okFsPath p && lastIsName p) || hitsCwd fs p then none
+      let p ← fromHex p; let r ← parseBool r; if !(okFsPath p) || hitsCwd fs p then none
       pure (fsApply fs (.rmdir p r), b01 (dirUnlinkTop fs p r).2)
   | ["fsunlink", p] => do
       let p ← fromHex p; if !(okFsPath p && lastIsName p) then none
